@@ -4,6 +4,7 @@
    CPython side: Spec/Lnotab.v (readers addr2line / colines, assemblers asm_pre310 / asm_310). *)
 From PCD Require Import Base.PyBase Model.LineTable Spec.Lnotab Proofs.C10_Statements
   Proofs.LT_ExpandCollapse Proofs.LT_Lnotab Proofs.LT_310.
+From PCD Require Base.PyImp Gen.SrcLines Proofs.SrcLinesTie.
 
 (* The property for co_lnotab: for every line program (3.7 or 3.8/3.9 assembler) and every code length n,
    the decoded mapping gives each instruction offset the line PyCode_Addr2Line gives, and re-encoding
@@ -78,6 +79,38 @@ Theorem C10_asm_in_domain_linetable : forall p prev,
   raw_ok true (asm_310 p prev) = true /\ raw_even (asm_310 p prev) = true.
 Proof. exact asm_310_raw. Qed.
 Print Assumptions C10_asm_in_domain_linetable.
+
+(* Tie to the current source, proved for ALL inputs.  Gen/SrcLines.v is re-translated on every run from the
+   statements of expand_items / collapse_items in code_data/_line_mapping.py (harness/translate_lines.py: loops as
+   fuelled while_, arithmetic or ordering on a None-able value raising TypeError).  The translated expand_items
+   terminates within the stated fuel (largest |bytecode offset| + |line offset| of an item), never raises, and returns
+   what the model returns; the comprehension, the two split conditions and the merge of collapse_items are the
+   model's.  (The reversed in-place loop of collapse_items itself is tied by the correspondence run.) *)
+Theorem C10_expand_items_is_the_source : forall lt items fuel,
+  (SrcLinesTie.expand_fuel items <= fuel)%nat ->
+  PCD.Gen.SrcLines.ExpandItems.expand_items fuel items lt = OK (expand_items lt items).
+Proof. exact SrcLinesTie.expand_items_tie. Qed.
+Print Assumptions C10_expand_items_is_the_source.
+
+Theorem C10_collapse_conditions_are_the_source : forall lt prev item,
+  PCD.Gen.SrcLines.CollapseItems.bytecode_offset_split lt prev item = OK (bytecode_offset_split lt prev item) /\
+  PCD.Gen.SrcLines.CollapseItems.line_offset_split lt prev item = OK (line_offset_split lt prev item) /\
+  (bytecode_offset_split lt prev item || line_offset_split lt prev item = true ->
+   PCD.Gen.SrcLines.CollapseItems.merge_items lt prev item = OK (merge_items prev item)) /\
+  (forall i, PCD.Gen.SrcLines.CollapseItems.to_citem lt i = OK (to_citem lt i)).
+Proof.
+  intros lt prev item. split; [apply SrcLinesTie.bytecode_offset_split_tie|].
+  split; [apply SrcLinesTie.line_offset_split_tie|]. split; [apply SrcLinesTie.merge_items_tie|].
+  intros i; apply SrcLinesTie.to_citem_tie.
+Qed.
+Print Assumptions C10_collapse_conditions_are_the_source.
+
+(* non-vacuity of the tie: the translated loops really run (three splitting iterations here) *)
+Example C10_translated_loops_run :
+  PCD.Gen.SrcLines.ExpandItems.expand_items 5 [(Some 300, 600); (None, 600); (Some (-300), 2)] true
+  = OK (expand_items true [(Some 300, 600); (None, 600); (Some (-300), 2)]) /\
+  length (expand_items true [(Some 300, 600); (None, 600); (Some (-300), 2)]) = 11%nat.
+Proof. vm_compute. split; reflexivity. Qed.
 
 (* non-vacuity: concrete programs satisfy the premises and exercise every splitting rule *)
 Example C10_premises_hold :
